@@ -10,7 +10,7 @@
    them (AllValidIn for the version filter, TypeAgrees for the kept element type). *)
 From AV Require Import Base.Bytes Base.Outcome Hash.HashModel Tree.Heap Tree.Ops Tree.Script Tree.Inv Tree.Copy
   Tree.CopyProofsDefs Tree.CopyProofsDeep Tree.CopyProofsCreate Tree.CopyProofsTop Tree.CopyProofsBridge
-  Tree.CopyProofsTiny Tree.Frame Tree.CopyProofsReg.
+  Tree.CopyProofsTiny Tree.Frame Tree.CopyProofsReg Tree.CopyProofsFK Tree.CopyProofsDup.
 Open Scope list_scope.
 Open Scope N_scope.
 
@@ -155,3 +155,30 @@ Theorem C13_register_walk_refs : forall T f m cur i w r w',
   register_subtree T f m cur i w = Val (r, w') ->
   forall j p, Sub w i j -> RefText T w j p -> HasOrigin w' m p j.
 Proof. exact register_subtree_refs. Qed.
+
+(* FRESH REGIONS STAY CLOSED: if every node with id >= lo lists only sub-elements with id >= lo, this is still so
+   after a copy call — a copy never links a node of a fresh region to a node that existed before *)
+Theorem C13_copy_keeps_regions_closed : forall T LATEST lo h other pos w r w',
+  lo <= w_next w -> FreshKids lo w -> copy_call T LATEST h other pos w = Val (r, w') ->
+  FreshKids lo w' /\ w_next w <= w_next w'.
+Proof. exact copy_call_FK. Qed.
+
+(* DUPLICATE: the original is untouched node by node, file by file, model by model (the lists only grow at the end);
+   when duplicate() fails the file and model lists are exactly what they were; when it succeeds (DupResult) the copy is
+   the new last model, its root is the first node allocated by the call and carries the attributes and the comment of
+   the original root, and everything reachable from that root was allocated by the call: the reachable sets of the
+   original (ids < w_next w) and of the copy (ids >= w_next w) are disjoint, which is the hypothesis of
+   C13_independent_partial.  (The content of the copy: each root child goes through copy_call, C13_copy_filtered;
+   what duplicate does NOT guarantee is witnessed by C13_duplicate_refuted.) *)
+Theorem C13_duplicate : forall T tab_el tab_en check_fn LATEST root_attrs m w r w',
+  Closed w ->
+  (forall x, nth_opt (w_models w) (N.to_nat m) = Some x -> exists rn, w_nodes w (m_root x) = Some rn) ->
+  m_duplicate T tab_el tab_en check_fn LATEST root_attrs m w = Val (r, w') ->
+  (forall i, i < w_next w -> w_nodes w' i = w_nodes w i) /\ w_next w <= w_next w' /\
+  firstn (List.length (w_files w)) (w_files w') = w_files w /\
+  firstn (List.length (w_models w)) (w_models w') = w_models w /\
+  match r with
+  | ER _ => w_files w' = w_files w /\ w_models w' = w_models w
+  | OK c => DupResult m w c w'
+  end.
+Proof. exact duplicate_spec. Qed.
